@@ -33,6 +33,7 @@ type c09Case struct {
 	HasHdr   bool   `json:",omitempty"` // server: header present at all
 	Carrier  string `json:",omitempty"`
 	StaleMD  string `json:",omitempty"` // client/e2e: the caller's outgoing metadata already carries a grpc-timeout key (e.g. forwarded by a gateway)
+	CredUs   int    `json:",omitempty"` // e2e: the call carries per-RPC credentials whose callback takes this long (token refresh); that is not transit time
 	ParentNs int64  `json:",omitempty"` // server: the HTTP request context has its own deadline this far ahead (e.g. http.TimeoutHandler)
 }
 
@@ -284,6 +285,21 @@ func c09Server(c c09Case, o *Outcome) *Outcome {
 	return o
 }
 
+type c09SlowCreds struct {
+	d        time.Duration
+	mu       sync.Mutex
+	returned time.Time
+}
+
+func (c *c09SlowCreds) GetRequestMetadata(ctx context.Context, uri ...string) (map[string]string, error) {
+	time.Sleep(c.d)
+	c.mu.Lock()
+	c.returned = time.Now()
+	c.mu.Unlock()
+	return map[string]string{"zz-token": "t"}, nil
+}
+func (c *c09SlowCreds) RequireTransportSecurity() bool { return false }
+
 func c09E2E(c c09Case, o *Outcome) *Outcome {
 	o.NonTrivial = true
 	var mu sync.Mutex
@@ -321,9 +337,16 @@ func c09E2E(c c09Case, o *Outcome) *Outcome {
 	if c.StaleMD != "" {
 		ctx = metadata.NewOutgoingContext(ctx, metadata.Pairs("grpc-timeout", c.StaleMD))
 	}
+	var copts []grpc.CallOption
+	var creds *c09SlowCreds
+	if c.CredUs > 0 {
+		o.class("e2e/slow-credentials")
+		creds = &c09SlowCreds{d: time.Duration(c.CredUs) * time.Microsecond}
+		copts = append(copts, grpc.PerRPCCredentials(creds))
+	}
 	if c.Stream {
 		cctx, cancel := context.WithCancel(ctx)
-		cs, err := car.Conn.NewStream(cctx, streamDescOf(kBidi), mBidi)
+		cs, err := car.Conn.NewStream(cctx, streamDescOf(kBidi), mBidi, copts...)
 		callErr = err
 		if err == nil {
 			cs.CloseSend()
@@ -331,10 +354,18 @@ func c09E2E(c c09Case, o *Outcome) *Outcome {
 		}
 		cancel()
 	} else {
-		callErr = car.Conn.Invoke(ctx, mUnary, &pb.Message{}, new(pb.Message))
+		callErr = car.Conn.Invoke(ctx, mUnary, &pb.Message{}, new(pb.Message), copts...)
 	}
 	mu.Lock()
 	defer mu.Unlock()
+	if creds != nil {
+		// transit starts when the library has what it needs to issue the request
+		creds.mu.Lock()
+		if !creds.returned.IsZero() {
+			start = creds.returned
+		}
+		creds.mu.Unlock()
+	}
 	if entered.IsZero() {
 		if c.NoDL || time.Duration(c.RemainNs) > 100*time.Millisecond {
 			return o.failf("handler never ran (call result: %v)", callErr)
@@ -401,6 +432,12 @@ func genC09(t *rapid.T) c09Case {
 		}
 		exp := rapid.Float64Range(math.Log(200e3), math.Log(10*365*24*3600e9)).Draw(t, "log-remaining")
 		c.RemainNs = int64(math.Exp(exp))
+		if rapid.IntRange(0, 3).Draw(t, "slowcreds") == 0 {
+			c.CredUs = rapid.SampledFrom([]int{3000, 8000, 20000}).Draw(t, "credus")
+			if c.RemainNs < int64(time.Second) {
+				c.RemainNs += int64(time.Second)
+			}
+		}
 		return c
 	}
 	c := c09Case{Mode: "server", Stream: rapid.Bool().Draw(t, "stream"), Carrier: rapid.SampledFrom([]string{cHTTP, cHTTPMux}).Draw(t, "carrier"), HasHdr: true}
